@@ -155,7 +155,9 @@ func (fv *funcVerifier) havocLoop(st *State, mi *modInfo) {
 		st.vars[v] = fv.fresh(st, "lh_"+v.Name(), v.Type())
 	}
 	if mi.heapAll {
+		fv.inLoopHavoc = true
 		fv.havocAll(st)
+		fv.inLoopHavoc = false
 	}
 	// time may pass
 	n := fv.c.Fresh("now", smt.Int)
@@ -175,6 +177,7 @@ type frameFact struct {
 	key        string
 	fresh, old smt.Term
 	f0, guard  smt.Term
+	except     smt.Term // optional: reference whose contents may change
 }
 
 // instFrames adds the ground instances of the recorded frame facts for a read
@@ -193,8 +196,11 @@ func (fv *funcVerifier) instFrames(key string, r smt.Term) {
 		if f.key != key {
 			continue
 		}
-		fv.assumeGlobal(smt.Implies(smt.And(f.guard, smt.Ge(r, smt.IntLit(0)), smt.Le(r, f.f0)),
-			smt.Eq(smt.Select(f.fresh, r), smt.Select(f.old, r))))
+		g := smt.And(f.guard, smt.Ge(r, smt.IntLit(0)), smt.Le(r, f.f0))
+		if f.except.S != "" {
+			g = smt.And(g, smt.Ne(r, f.except))
+		}
+		fv.assumeGlobal(smt.Implies(g, smt.Eq(smt.Select(f.fresh, r), smt.Select(f.old, r))))
 	}
 }
 
@@ -274,9 +280,31 @@ func (fv *funcVerifier) loopCandidates(st *State, mi *modInfo) []candidate {
 			cands = append(cands, candidate{desc: "frame " + k, eval: goal, frame: true, assumeAt: func(s *State) {
 				fresh := fv.heapGet(s, k)
 				old := fv.heapGet(pre, k)
-				fv.frameFacts = append(fv.frameFacts, frameFact{k, fresh, old, f0, s.live})
+				fv.frameFacts = append(fv.frameFacts, frameFact{key: k, fresh: fresh, old: old, f0: f0, guard: s.live})
 				fv.frameAxioms = append(fv.frameAxioms, smt.Implies(s.live, goal(s)))
 			}})
+			// weaker variants: everything except the backing array of one slice variable in scope
+			if strings.HasPrefix(k, "mem:") {
+				for _, o := range others {
+					o := o
+					sl, isSl := o.Type().Underlying().(*types.Slice)
+					if !isSl || fv.memKey(sl.Elem()) != k {
+						continue
+					}
+					ex := slArr(st.vars[o])
+					goalX := func(s *State) smt.Term {
+						r := smt.Term{S: "fr_r", Sort: smt.Int}
+						return smt.Forall([]smt.Term{r}, smt.Implies(smt.And(smt.Ge(r, smt.IntLit(0)), smt.Le(r, f0), smt.Ne(r, ex)),
+							smt.Eq(smt.Select(fv.heapGet(s, k), r), smt.Select(fv.heapGet(pre, k), r))))
+					}
+					cands = append(cands, candidate{desc: "frame " + k + " except " + o.Name(), eval: goalX, frame: true, assumeAt: func(s *State) {
+						fresh := fv.heapGet(s, k)
+						old := fv.heapGet(pre, k)
+						fv.frameFacts = append(fv.frameFacts, frameFact{key: k, fresh: fresh, old: old, f0: f0, guard: s.live, except: ex})
+						fv.frameAxioms = append(fv.frameAxioms, smt.Implies(s.live, goalX(s)))
+					}})
+				}
+			}
 		}
 		var sls []*types.Var
 		for v := range mi.vars {
